@@ -234,7 +234,7 @@ def runProg (ticks : Nat) (src : List FramerSrc) : List String :=
     match ticksLoop hostIds (ticks + 1) 0 hosts s with
     | .error e => ["BUILD ok", "ERR " ++ runErrName e]
     | .ok s =>
-      s.out.reverse ++ ["END"] ++ sortStrings (s.store.map (fun (p, v) => "V " ++ p ++ " value=" ++ toString v))
+      s.out.reverse ++ ["END"] ++ sortStrings (s.store.filterMap (fun (p, v) => v.map (fun v => "V " ++ p ++ " value=" ++ toString v)))
 
 def progP : P (Nat × List FramerSrc) := fun ts => do
   let (t, r) ← nat ts
